@@ -238,9 +238,55 @@ def _r1(ctx, f, blk, reg, with_latency=True):
                 r = vec(d.value, d.stmt, depth + 1)
                 if r is UNK:
                     return _unk(e)
+                # element-wise accumulation in place between the definition and the use: `for i, v in enumerate(B): A[i] += v`
+                for lp_, b_expr in elementwise_adds(e.id):
+                    if lp_ is at or not (cfg.reachable(d.stmt, lp_) and cfg.reachable(lp_, at)):
+                        continue
+                    b_ = vec(b_expr, lp_, depth + 1)
+                    if b_ is UNK:
+                        return _unk(e)
+                    added = [x + y for x in r for y in b_][:256]
+                    r = (r + added) if cfg.reachable(d.stmt, at, avoid=[lp_]) else added
                 out.extend(r)
             return out[:256]
         return _unk(e)
+
+    _ew_cache = {}
+
+    def elementwise_adds(name):
+        """[(loop, B)] for loops that add the vector B onto the local `name` element by element"""
+        if name in _ew_cache:
+            return _ew_cache[name]
+        res = []
+        for lp_ in ast.walk(f.node):
+            if not (isinstance(lp_, ast.For) and len(lp_.body) == 1 and not lp_.orelse):
+                continue
+            st_ = lp_.body[0]
+            i_, v_, b_expr = None, None, None
+            if isinstance(lp_.target, ast.Tuple) and len(lp_.target.elts) == 2 and C.is_call_to(lp_.iter, "enumerate") and len(lp_.iter.args) == 1 \
+                    and all(isinstance(t_, ast.Name) for t_ in lp_.target.elts):
+                i_, v_, b_expr = lp_.target.elts[0].id, lp_.target.elts[1].id, lp_.iter.args[0]
+            elif isinstance(lp_.target, ast.Name) and pm.match("range(len(M_b))", lp_.iter) is not None:
+                i_ = lp_.target.id
+                b_expr = pm.match("range(len(M_b))", lp_.iter)["M_b"]
+                v_ = "%s[%s]" % (U(b_expr), i_)
+            if i_ is None:
+                continue
+            slot = "%s[%s]" % (name, i_)
+            ok_ = False
+            if isinstance(st_, ast.AugAssign) and isinstance(st_.op, ast.Add) and U(st_.target) == slot and U(st_.value) == v_:
+                ok_ = True
+            elif isinstance(st_, ast.Assign) and len(st_.targets) == 1 and U(st_.targets[0]) == slot:
+                val = st_.value
+                if isinstance(val, ast.BinOp) and isinstance(val.op, ast.Add) and {U(val.left), U(val.right)} == {slot, v_}:
+                    ok_ = True
+                elif C.is_call_to(val, "sum") and len(val.args) == 1 and isinstance(val.args[0], (ast.Tuple, ast.List)) \
+                        and sorted(U(x_) for x_ in val.args[0].elts) == sorted([slot, v_]):
+                    ok_ = True
+            if ok_ and (b_expr is not None) and U(b_expr) != name:
+                res.append((lp_, b_expr))
+        _ew_cache[name] = res
+        return res
 
     kinds_cache = {}
 
@@ -341,9 +387,33 @@ def _r1(ctx, f, blk, reg, with_latency=True):
                     if os.environ.get("OSACA_SA_DEBUG"):
                         print("DBG tp", dv if dv is UNK else sorted({tuple(sorted(map(repr, alt))) for alt in dv}), "\nVS", valts is UNK or sorted({
                             tuple(sorted(repr(t_) for t_ in alt if leaf_kind(t_[0]) != "REG")) for alt in valts}), r_or)
-        ctx.judge(ok3, rec3 or not tps, "R1", "throughput = max(busiest data port, register form's throughput)", f.where(tps[0]) if tps else f.where(blk),
-                  "composition provenance broken: throughput = max(busiest data port, register form's throughput) (found: %s)" % (
-                      U(tps[0].value)[:120] if tps else "none"), f.qname, "throughput = max(busiest data port, register form's throughput)")
+                elif not inner and pm.call_name(v) == "max":
+                    # the busiest data port held in a scalar local: judged by how that scalar is formed - the maximum over the
+                    # SUMMED data-port vector, or (wrong) the larger of the maxima of its parts
+                    for cand in v.args:
+                        if not (isinstance(cand, ast.Name) and flow.is_local(cand.id)):
+                            continue
+                        try:
+                            ds_ = flow.reaching(n, cand.id)
+                        except KeyError:
+                            continue
+                        parts_max = [d_ for d_ in ds_ if d_.kind == "assign" and d_.value is not None and isinstance(d_.value, ast.Call)
+                                     and pm.call_name(d_.value) == "max" and len(d_.value.args) == 2
+                                     and any(isinstance(a_, ast.Name) and a_.id == cand.id for a_ in d_.value.args)
+                                     and any(isinstance(a_, ast.Call) and pm.call_name(a_) == "max" and len(a_.args) == 1 for a_ in d_.value.args)]
+                        if parts_max:
+                            rec3 = True
+                            ok3 = False
+                            ctx.node_bad("R1", f, parts_max[0].stmt, "`%s` keeps the larger of the busiest load port and the busiest store port; the "
+                                         "composed form's pressure is the SUM of the two vectors, so when loads and stores share their busiest "
+                                         "port (zen3 / zen4 read-modify-write forms) the reported throughput is too small" % U(parts_max[0].stmt)[:100],
+                                         instance="throughput = max(busiest data port, register form's throughput)")
+                            tp_reported = True
+                            break
+        if not locals().get("tp_reported"):
+          ctx.judge(ok3, rec3 or not tps, "R1", "throughput = max(busiest data port, register form's throughput)", f.where(tps[0]) if tps else f.where(blk),
+                    "composition provenance broken: throughput = max(busiest data port, register form's throughput) (found: %s)" % (
+                        U(tps[0].value)[:120] if tps else "none"), f.qname, "throughput = max(busiest data port, register form's throughput)")
         # ---- latency = register form's latency [+ load latency(reg type) when it loads] [+ store latency when it stores] ----
         def flag_of(e):
             m_ = pm.match("M_f in instruction_form.flags", e)
